@@ -334,12 +334,48 @@ def r10_7(ctx):
     ctx.check(r.kind == "field" and r.a == "original", "original-string-getter", g.where(), "original_string() returns the stored original unchanged", "original_string is %s" % r.show())
 
 
+SELECTORS = {"Index::index", "slice::first", "slice::last", "slice::get", "Vec::first", "Vec::last", "Iterator::take", "Iterator::skip", "Iterator::nth",
+             "Iterator::next", "Iterator::last", "Iterator::filter", "slice::split_first", "slice::split_at", "Iterator::step_by"}
+
+
+def r10_9(ctx):
+    """command wiring: the parser (FileParser::new) and the update generator (MarkdownUpdateGenerator::new) of the update command
+    receive the same, whole `--markdown-languages` list - otherwise they disagree on which fenced blocks are test blocks and the
+    n-th outcome is written into the wrong block"""
+    prog = ctx.prog
+    seen = {}
+    for b in prog.bodies:
+        if b.promoted is not None or not b.crate.startswith("scrut-bin") or "update::Args" not in b.npath:
+            continue
+        o = None
+        for bb, t in b.calls():
+            n = strip_mods(callee_name(t) or "")
+            import re as _re
+            n = _re.sub(r"::<[^>]*>", "", callee_name(t) or "")
+            which = "generator" if n.endswith("MarkdownUpdateGenerator::new") else ("parser" if n.endswith("FileParser::new") else None)
+            if which is None:
+                continue
+            o = o or Origins(b)
+            tree = o.operand(t["args"][-1])
+            from_field = any(x.kind == "field" and x.a == "markdown_languages" for x in tree.walk())
+            sel = sorted({method_name(x.a) for x in tree.walk() if x.kind == "call" and method_name(x.a) in SELECTORS})
+            lits = [x for x in tree.walk() if x.kind == "agg" and x.a[0] == "array"]
+            seen[which] = (b, bb)
+            ctx.check(from_field and not sel and not lits, "languages:" + which, b.loc(bb),
+                      "the %s of `update` is built from the whole markdown_languages list" % which,
+                      "the %s of `update` is built from %s (selectors %s, literal arrays %d): parser and generator no longer agree on which fenced blocks "
+                      "are test blocks, outcomes are written into the wrong blocks" % (which, tree.show()[:100], sel, len(lits)))
+    ctx.check(set(seen) == {"generator", "parser"}, "languages:sites", "-", "update builds one parser and one Markdown update generator",
+              "found only %s" % sorted(seen))
+
+
 def run(ctx):
     ctx.run_rule("R10.1", "token-field conservation in generate_update: every text field of every token variant is written back untrimmed; only code_lines is replaced [E-FLOW]", r10_1, floor=9)
     ctx.run_rule("R10.2", "the tokenizer never ends early (R6.1) and generate_update re-emits all tokens of the original document [E-PATH]", r10_2, floor=4)
     ctx.run_rule("R10.3", "a passing test is re-emitted from original_string (all expectations, command, exit code) [E-FLOW]", r10_3, floor=4)
     ctx.run_rule("R10.4", "block/outcome pairing: testcase_index incremented exactly once per test block; outcomes[testcase_index] single reader [E-STATE]", r10_4, floor=3)
     ctx.run_rule("R10.5", "fence and `$`/`>`/`[code]` writer-reader tables (R9.1, R9.4): the rewritten block parses to the same commands [E-TABLE]", r10_5, floor=15)
+    ctx.run_rule("R10.9", "update command wiring: parser and update generator are built from the same whole markdown_languages list [E-FLOW]", r10_9, floor=3)
     ctx.run_rule("R10.8", "sibling agreement: parser and update generator agree on which scrut blocks carry a test case (non-empty code lines) [E-TABLE/E-PATH]", r10_8, floor=2)
     ctx.run_rule("R10.7", "the text a passing expectation is re-emitted from is the line as written: parse -> make -> original_string without trimming [E-FLOW]", r10_7, floor=3)
     ctx.run_rule("R10.6", "consumed-line conservation in MarkdownIterator::next: each read line is stored once or consumed as a delimiter on every path [E-STATE by dataflow]", r10_6, floor=4)
